@@ -262,19 +262,27 @@ def evRead (s : St C) : St C × Int × Bytes :=
     if recoverable err = false then (disconnect { s with error := err }, r.2.1, [])
     else (disconnect { s with error := Gen.Zl.eConnReset }, r.2.1, [])   -- "Socket closed by remote host."
 
-/-- event-loop iterations while the socket is readable or the interface reports pending input;
-    returns the plaintext delivered and the list of `read` results -/
-def readLoop : Nat → St C → Bytes → List Int → St C × Bytes × List Int
+/-- the application's loop around xmpp_run_once for as long as select() reports the socket
+    readable.  Each call is a whole iteration: the send half (lower transport accepting
+    everything), then — the connection still being up — the read branch
+    (`FD_ISSET(sock, &rfds) || intf->pending(intf)`).  Once the socket is drained select() reports
+    nothing and xmpp_run_once returns ("no events happened") BEFORE it looks at `intf->pending`;
+    without TLS, input still waiting in the decompression buffer is therefore only picked up by
+    the next socket event.  Returns the plaintext handed to parser_feed and the `read` results. -/
+def readLoop (wfuel : Nat) : Nat → St C → Bytes → List Int → St C × Bytes × List Int
   | 0, s, acc, rets => ({ s with diverged := true }, acc, rets)
   | fuel + 1, s, acc, rets =>
-    if s.connected && (readable s || pending s) then
-      let r := evRead s
-      readLoop fuel r.1 (acc ++ r.2.2) (rets ++ [r.2.1])
+    if s.connected && readable s then
+      let s := runOnceSend wfuel { s with sched := [] }
+      if s.connected then
+        let r := evRead s
+        readLoop wfuel fuel r.1 (acc ++ r.2.2) (rets ++ [r.2.1])
+      else (s, acc, rets)
     else (s, acc, rets)
 
-/-- a compressed fragment arrives and the event loop runs until nothing is readable or pending -/
-def rxFragment (fuel : Nat) (s : St C) (frag : Bytes) : St C × Bytes × List Int :=
-  readLoop fuel { s with inq := s.inq ++ frag } [] []
+/-- a compressed fragment reaches the socket -/
+def rxFragment (wfuel fuel : Nat) (s : St C) (frag : Bytes) : St C × Bytes × List Int :=
+  readLoop wfuel fuel { s with inq := s.inq ++ frag } [] []
 
 /-! ### teardown -/
 
@@ -321,7 +329,7 @@ def Op.allAccept : Op → Prop
   | .iter sc => ∀ a ∈ sc, a = Accept.all
 
 /-- the compressed fragments arrive one after the other; plaintext delivered to the parser -/
-def rxAll {C : Codec} (fuel : Nat) (s : St C) (frags : List Bytes) : St C × Bytes :=
-  frags.foldl (fun p f => let r := rxFragment fuel p.1 f; (r.1, p.2 ++ r.2.1)) (s, [])
+def rxAll {C : Codec} (wfuel fuel : Nat) (s : St C) (frags : List Bytes) : St C × Bytes :=
+  frags.foldl (fun p f => let r := rxFragment wfuel fuel p.1 f; (r.1, p.2 ++ r.2.1)) (s, [])
 
 end Strophe.Compression
